@@ -187,3 +187,14 @@ Example C18_ex_insert_one_direction :
   parse_tree [TT_Number; TT_Whitespace; TT_StartSideEffect; TT_EndSideEffect; TT_Annotation; TT_StartGroup; TT_EndGroup]
     <> None.
 Proof. vm_compute. split; [reflexivity|discriminate]. Qed.
+
+(* what stays bounded, and why: beyond three tokens "any two accepted whitespace spellings
+   give the same tree" is FALSE of the model (and of the parser: `[1][2]5` is 5, `[1][2] 5`
+   builds a list and fails at run time) -- after two adjacent side-effect blocks the
+   second block has a left child, the space-list check takes it for a value, and the
+   whitespace becomes the list operator *)
+Example C18_whitespace_spelling_unbounded_refuted :
+  (exists a b, parse_tree [TT_StartSideEffect; TT_EndSideEffect; TT_StartSideEffect; TT_EndSideEffect; TT_Number] = Some a /\
+               parse_tree [TT_StartSideEffect; TT_EndSideEffect; TT_StartSideEffect; TT_EndSideEffect; TT_Whitespace; TT_Number] = Some b /\
+               gtree_eqb a b = false).
+Proof. eexists _, _. vm_compute. repeat split; reflexivity. Qed.
